@@ -90,7 +90,7 @@ impl convert::TryFrom<i32> for Year {
 impl fmt::Debug for Year {
 	fn fmt(&self, f: &mut fmt::Formatter<'_>) -> fmt::Result {
 		if self.value() < 0 {
-			write!(f, "{} BC", -self.0)
+			write!(f, "{} BC", self.0.unsigned_abs())
 		} else {
 			write!(f, "{}", self.0)
 		}
@@ -100,7 +100,7 @@ impl fmt::Debug for Year {
 impl fmt::Display for Year {
 	fn fmt(&self, f: &mut fmt::Formatter<'_>) -> fmt::Result {
 		if self.value() < 0 {
-			write!(f, "{} BC", -self.0)
+			write!(f, "{} BC", self.0.unsigned_abs())
 		} else {
 			write!(f, "{}", self.0)
 		}
